@@ -1,6 +1,8 @@
 import LcmProofs.SimPanel
 import LcmProofs.SpecRefine
 import LcmProps.Examples
+import LcmProofs.InfeasibleSim
+import LcmProofs.UtilityBody
 namespace Lcm
 
 /-! # C02 — simulated decisions are feasible maximisers of the agent's objective
@@ -151,5 +153,20 @@ example : ((Ex.f1Model.states ++ Ex.f1Model.choices).map (·.1)).Nodup := by dec
     (simNext Ex.consModel Ex.consParams (solve Ex.consModel Ex.consParams) 0) [("w", 3/2)] []).best
   == (agentDecision Ex.consModel Ex.consParams (groups Ex.consModel) 0
     (simNext Ex.consModel Ex.consParams (solve Ex.consModel Ex.consParams) 0) [[("w", 3/2)]] 0).value
+
+/-- **the reported decisions never depend on what utility returns at an infeasible choice** (`+inf`, `nan`, or nothing at
+all - `Expr.div` by zero in the model): two specifications whose utilities agree wherever all constraints hold produce the
+same panel - values, choices, states - for every batch, every value arrays and every draw. -/
+theorem C02_infeasible_choices_do_not_influence_decisions {m m' : Model} {P : Params}
+    (h : UtilityAgreesOnFeasible m m' P) (hstates : m'.states = m.states)
+    (V : List (Tensor Ext)) (init : List (List (Name × Rat))) (draws : Draws) :
+    simulate m' P V init draws true = simulate m P V init draws true :=
+  simulate_eq_of_utility_agrees_on_feasible h hstates V init draws
+
+/-- per agent and period, with the value arrays in use left arbitrary -/
+theorem C02_decision_ignores_infeasible_utility {m m' : Model} {P : Params} (h : UtilityAgreesOnFeasible m m' P)
+    (g : Groups) (t : Nat) (next : Option (Tensor Ext × List (List (Name × Rat)))) (states : List (List (Name × Rat)))
+    (i : Nat) : agentDecision m' P g t next states i = agentDecision m P g t next states i :=
+  h.agentDecision g t next states i
 
 end Lcm
